@@ -4,6 +4,7 @@ import (
 	"bytes"
 	"context"
 	"fmt"
+	"math/rand"
 	"strings"
 	"testing"
 	"testing/synctest"
@@ -131,6 +132,78 @@ func capacityScenarios(t *testing.T, r *ev.Run) {
 			r.Distinct("capacity|" + sh.name)
 		}); p != nil {
 			r.Violation("panic:capacity-scenario", fmt.Sprint(p), nil)
+		}
+	}
+}
+
+// largeCacheLedger: key caches at the sizes where the eviction policies change shape (TinyLFU's admission window and
+// the SLRU's protected segment exist from capacity 100 on) with a working set somewhat larger than the cache and a
+// skewed revisit pattern, through the leak ledger: at quiescent moments the live secrets stay within the caches'
+// capacities, and after the sessions and the factory are closed every secret has been released.
+func largeCacheLedger(t *testing.T, r *ev.Run) {
+	for _, pol := range []string{"tinylfu", "slru", "lfu", "lru"} {
+		for _, cp := range []int{100, 101} {
+			name := fmt.Sprintf("shared-ik-%s-%d", pol, cp)
+			journal("C09 large cache " + name)
+			if p := inBubble(t, func() {
+				w := world.New("memguard")
+				defer w.Close()
+				w.Led.NoHash = true
+				time.Sleep(11 * time.Second)
+				c := world.Default(tE, tR, tP)
+				c.SKPolicy, c.SKCap, c.IKPolicy, c.IKCap, c.SharedIK = "lru", 4, pol, cp, true
+				f := w.Factory(c, "svc", "prod")
+				ctx := context.Background()
+				nparts := cp + 25
+				use := func(i int) bool {
+					s, err := f.GetSession(fmt.Sprintf("part-%d", i))
+					if err != nil {
+						return false
+					}
+					defer s.Close()
+					d, err := s.Encrypt(ctx, []byte("x"))
+					if err == nil {
+						_, err = s.Decrypt(ctx, *d)
+					}
+					if err != nil {
+						r.Violation("capacity-scenario-op-failed", fmt.Sprintf("%s: partition %d: %v", name, i, err), nil)
+						return false
+					}
+					return true
+				}
+				rng := rand.New(rand.NewSource(int64(cp)*7 + int64(len(pol))))
+				for round := 0; round < 3; round++ {
+					for i := 0; i < nparts; i++ {
+						if !use(i) {
+							return
+						}
+						// a few hot partitions come back again and again (they get promoted), others once in a while
+						if !use(rng.Intn(8)) || (i%5 == 0 && !use(rng.Intn(nparts))) {
+							return
+						}
+					}
+					synctest.Wait()
+					if live := len(w.Led.Live()); live > cp+4 {
+						r.Violation("live-secrets-exceed-cache-capacities", fmt.Sprintf("%s: after round %d %d secrets are live at a quiescent moment, the caches may hold at most %d", name, round, live, cp+4), nil)
+					}
+				}
+				f.Close()
+				synctest.Wait()
+				if live := w.Led.Live(); len(live) > 0 {
+					r.Violation("secret-leaked", fmt.Sprintf("%s: %d of %d secrets are still open after every session and the factory were closed", name, len(live), w.Led.Len()), map[string]any{"shape": name})
+				}
+				for _, sr := range w.Led.Recs() {
+					if sr.State().TouchAfterClose > 0 {
+						r.Violation("touch-after-close", fmt.Sprintf("%s: %s was used after it had been released", name, sr), nil)
+						break
+					}
+				}
+				r.Eval(1)
+				r.Count("large_cache_ledger_cases", 1)
+				r.Distinct("large-cache|" + name)
+			}); p != nil {
+				r.Violation("panic:capacity-scenario", fmt.Sprintf("%s: %v", name, p), nil)
+			}
 		}
 	}
 }
